@@ -304,6 +304,10 @@ type nxCfg struct {
 	// the node request snapshots by itself
 	RealPool        bool
 	SnapshotEntries uint64
+	// Compaction > 0 sets config.CompactionOverhead (default 1000 = the log is
+	// never compacted): with a small value a lagging replica must be caught up by
+	// an InstallSnapshot message
+	Compaction uint64
 	HoldJobs        int // deviation budget: hold back a scheduled snapshot job
 	// RealTime: raft's tick counters are not normalised; Tick events advance
 	// real election/heartbeat timers (deterministic, distinct election timeouts)
@@ -487,6 +491,9 @@ func (c *nxCluster) startHost(h *nxHost) {
 	cfg := config.Config{ReplicaID: h.id, ShardID: nxShard, ElectionRTT: 10, HeartbeatRTT: 2,
 		CheckQuorum: c.cfg.CheckQuorum, PreVote: c.cfg.PreVote, Quiesce: c.cfg.Quiesce,
 		SnapshotEntries: c.cfg.SnapshotEntries, CompactionOverhead: 1000, MaxInMemLogSize: c.cfg.RateLimit}
+	if c.cfg.Compaction > 0 {
+		cfg.CompactionOverhead = c.cfg.Compaction
+	}
 	peers, initial := nxPeers(c.cfg.N), true
 	if h.joiner {
 		peers, initial = map[uint64]string{}, false
